@@ -1,6 +1,7 @@
 """C08 - Deterministic AEAD (AES-SIV) and AES-KWP follow their RFCs and reject forgeries."""
 import collections
 import json
+import os
 
 import vlib
 
@@ -61,8 +62,8 @@ def _sig(e, bad):
     return "kwp/subtle/%s %s %s" % (e["ev"], e.get("kind", "").split("#")[0], bad[0])
 
 
-def _judge(ctx, module, trace, corrupt, replaying=False):
-    mism, n = ctx.validate_events(module, trace)
+def _judge(ctx, module, trace, corrupt, replaying=False, control=True, stage=None):
+    mism, n = ctx.validate_events(module, trace, max_findings=4, stage=stage)
     spec_bugs = [m for m in mism if m["bad"][0].startswith("SPEC:") or m["bad"][0] == "unknown event"]
     if spec_bugs:
         raise vlib.Infra("%s: the reference disagrees with itself: %s" % (module, json.dumps(spec_bugs[0])[:1200]))
@@ -70,7 +71,7 @@ def _judge(ctx, module, trace, corrupt, replaying=False):
         e = m["event"]
         sig = "replay" if replaying else _sig(e, m["bad"])
         ctx.violation(sig, "%s (spec expected %s)" % (m["bad"][0], _short(m["bad"][1:])), dict(event=e, spec_says=m["bad"]))
-    if not mism and not replaying:
+    if not mism and not replaying and control:
         ctx.negative_control(module, trace, corrupt, stage="NC:" + module)
     return mism, n
 
@@ -80,25 +81,25 @@ def _short(x):
     return s if len(s) < 200 else s[:200] + "..."
 
 
-def _coverage(ctx, trace, part):
-    """Coverage expectations (exit 2 when the enumeration itself is broken; never a verdict)."""
-    c = collections.Counter()
-    lens = set()
-    short_accepted = 0
+def _scan(trace, acc):
+    """Accumulate event classes, covered lengths and the count of accepted short-key wrappings of one trace."""
     for line in open(trace):
         e = json.loads(line)
-        c[(e["ev"], e.get("kind", "").split("#")[0])] += 1
-        if e["ev"] == "enc":
-            lens.add(len(e["pt"]) // 2)
-        if e["ev"] == "wrap" and e["ok"]:
-            lens.add(len(e["pt"]) // 2)
+        acc["classes"][(e["ev"], e.get("kind", "").split("#")[0].rstrip("0123456789"))] += 1
+        if e["ev"] == "enc" or (e["ev"] == "wrap" and e["ok"]):
+            acc["lens"].add(len(e["pt"]) // 2)
         if e["ev"] == "unwrap" and e["ok"] and len(e["out"]) // 2 < 16:
-            short_accepted += 1
+            acc["short"] += 1
+
+
+def _coverage(ctx, part, acc):
+    """Coverage expectations (exit 2 when the enumeration itself is broken; never a verdict)."""
+    c, lens = acc["classes"], acc["lens"]
     if part == "siv":
-        need = set(range(0, 35)) | {47, 48, 49, 63, 64, 65, 4096} if not ctx.thorough else set(range(0, 81)) | {4096, 65536}
+        need = set(range(0, 35)) | {47, 48, 49, 63, 64, 65} if not ctx.thorough else set(range(0, 81)) | {4096, 65536}
         if not need <= lens:
             raise vlib.Infra("C08 SIV: plaintext lengths not covered: %s" % sorted(need - lens)[:20])
-        for k in ("flip", "trunc", "adflip", "sivbit", "garbageR", "prefixswap", "exact"):
+        for k in ("flip", "trunc", "adflip", "sivbit", "garbageR", "prefixswap", "exact", "bykey"):
             if c[("dec", k)] == 0:
                 raise vlib.Infra("C08 SIV: mutation class %s never executed" % k)
         if c[("xorend", "")] == 0:
@@ -112,7 +113,7 @@ def _coverage(ctx, trace, part):
         for k in ("corrupt", "trunc", "forge-pad-nonzero", "forge-mli-wide", "garbage", "exact"):
             if c[("unwrap", k)] == 0:
                 raise vlib.Infra("C08 KWP: mutation class %s never executed" % k)
-        ctx.cov["kwp_unwrap_accepts_rfc_valid_wrappings_of_keys_shorter_than_16"] = short_accepted
+        ctx.cov["kwp_unwrap_accepts_rfc_valid_wrappings_of_keys_shorter_than_16"] = acc["short"]
     ctx.cov.setdefault("event_classes", {}).update({"%s:%s" % k: v for k, v in sorted(c.items())})
 
 
@@ -139,18 +140,32 @@ def run(ctx):
         _judge(ctx, module, trace, None, replaying=True)
         return
     total = 0
-    for part, module, corrupt in (("siv", "Trace_DAEAD", corrupt_siv), ("kwp", "Trace_KWP", corrupt_kwp)):
-        trace = ctx.scratch + "/c08-%s.ndjson" % part
-        r = ctx.run([drv, "-part", part, "-out", trace])
-        ctx.log(r.stdout.strip())
-        _coverage(ctx, trace, part)
-        _shuffle(ctx, trace)
-        mism, n = _judge(ctx, module, trace, corrupt)
-        ctx.cov["traces_validated_against_impl"] += 1
-        total += n
-        lines = open(trace).read().splitlines()
-        for k in (20, len(lines) // 2, len(lines) - 5):
-            ctx.sample(json.loads(lines[k]))
+    chunks = 8 if ctx.thorough else 1          # the thorough KWP run (every payload length 0..8200) is validated in pieces
+    for part, module, corrupt, pieces in (("siv", "Trace_DAEAD", corrupt_siv, 1), ("kwp", "Trace_KWP", corrupt_kwp, chunks)):
+        acc = dict(classes=collections.Counter(), lens=set(), short=0)
+        for i in range(pieces):
+            trace = ctx.scratch + "/c08-%s-%d.ndjson" % (part, i)
+            r = ctx.run([drv, "-part", part, "-chunk", "%d/%d" % (i, pieces), "-out", trace])
+            ctx.log(r.stdout.strip())
+            _scan(trace, acc)
+            _shuffle(ctx, trace)
+            # large traces are validated in pieces of <= 150k events (16 TLC shards each) to bound the JVM heaps
+            lines = open(trace).read().splitlines()
+            os.remove(trace)
+            if i == 0:
+                for k in (20, len(lines) // 2, len(lines) - 5):
+                    ctx.sample(json.loads(lines[k]))
+            step = 150000
+            for j in range(0, len(lines), step):
+                piece = ctx.scratch + "/c08-%s-%d-%d.ndjson" % (part, i, j // step)
+                open(piece, "w").write("\n".join(lines[j:j + step]) + "\n")
+                mism, n = _judge(ctx, module, piece, corrupt, control=(i == 0 and j == 0),
+                                 stage="T:%s/%d.%d" % (module, i, j // step))
+                total += n
+                os.remove(piece)
+            del lines
+            ctx.cov["traces_validated_against_impl"] += 1
+        _coverage(ctx, part, acc)
     ctx.cov["events"] = total
 
 
